@@ -8,8 +8,10 @@ import sys
 import time
 
 ROOT = os.path.dirname(os.path.dirname(os.path.abspath(__file__)))
-EVID = os.path.join(ROOT, "evidence")
-REPLAYS = os.path.join(ROOT, "replays")
+# VERIF_OUT redirects evidence and replay files (used when a check is pointed at a scratch worktree via PYTRAPIC_REPO)
+_OUT = os.environ.get("VERIF_OUT") or ROOT
+EVID = os.path.join(_OUT, "evidence")
+REPLAYS = os.path.join(_OUT, "replays")
 KNOWN = os.path.join(ROOT, "known_findings.json")
 
 
@@ -72,6 +74,10 @@ def pmap(fn, cases, nworkers=None, chunksize=None, order_seed=None):
     if chunksize is None:
         chunksize = max(1, min(32, n // (nworkers * 8) or 1))
     ctx = mp.get_context("fork")
+    import gc
+
+    gc.collect()
+    gc.freeze()  # keep the parent's heap (astroid's symbol module) out of the workers' collections: fewer copy-on-write faults
     with ctx.Pool(nworkers) as pool:
         for o in pool.imap_unordered(_call, items, chunksize=chunksize):
             outs[o["_i"]] = o
@@ -84,8 +90,10 @@ def determinism_check(fn, cases, outs, n=12):
     for i, case in enumerate(cases[:n]):
         o2 = fn(case)
         o1 = outs[i]
-        a = (o1.get("symptom"), json.dumps(o1.get("stats"), sort_keys=True, default=str))
-        b = (o2.get("symptom"), json.dumps(o2.get("stats"), sort_keys=True, default=str))
+        # load-dependent counters (helper-process timeouts that were retried / counted inconclusive) are not observations
+        vol = lambda st: {k: v for k, v in (st or {}).items() if k not in ("inconclusive", "nontrivial_if_conclusive")} if not (st or {}).get("inconclusive") else {}
+        a = (o1.get("symptom"), json.dumps(vol(o1.get("stats")) if not (o2.get("stats") or {}).get("inconclusive") else {}, sort_keys=True, default=str))
+        b = (o2.get("symptom"), json.dumps(vol(o2.get("stats")) if not (o1.get("stats") or {}).get("inconclusive") else {}, sort_keys=True, default=str))
         if a != b:
             bad.append((i, a, b))
     return bad
